@@ -33,7 +33,12 @@ impl<D: DecisionDiagram<State = i64> + Default> DecisionDiagram for PTapeDD<D> {
     fn best_value(&self) -> Option<isize> { self.inner.best_value() }
     fn best_solution(&self) -> Option<Solution> { self.inner.best_solution() }
     fn best_exact_value(&self) -> Option<isize> { let v = self.inner.best_exact_value(); rec(format!("DV {}", v.map(|x| x.to_string()).unwrap_or("none".into()))); v }
-    fn best_exact_solution(&self) -> Option<Solution> { let s = self.inner.best_exact_solution(); rec(format!("DS {}", s.as_ref().map(|x| decs(x)).unwrap_or("none".into()))); s }
+    fn best_exact_solution(&self) -> Option<Solution> {
+        // stress mode: rebuilding the path is made slow, which widens any window between reading / publishing the
+        // incumbent value and storing its solution (real threads, no scheduler)
+        if STRESS.load(AO::SeqCst) == 1 { std::thread::sleep(std::time::Duration::from_micros(150)); }
+        let s = self.inner.best_exact_solution(); rec(format!("DS {}", s.as_ref().map(|x| decs(x)).unwrap_or("none".into()))); s
+    }
     fn drain_cutset<F>(&mut self, mut func: F) where F: FnMut(SubProblem<i64>) {
         let mut v = vec![];
         self.inner.drain_cutset(|n| v.push(n));
@@ -54,6 +59,7 @@ impl Fringe for PTapeFringe<'_> {
 #[derive(Default)]
 pub struct PTapeCache<C: Cache<State = i64> + Default> { inner: C }
 pub static CACHE_YIELD: AtomicUsize = AtomicUsize::new(0);
+pub static STRESS: AtomicUsize = AtomicUsize::new(0);
 impl<C: Cache<State = i64> + Default> Cache for PTapeCache<C> {
     type State = i64;
     fn must_explore(&self, s: &SubProblem<i64>) -> bool { let b = self.inner.must_explore(s); rec(format!("CM {} > {}", sub_tok(s), b as u8)); b }
@@ -77,11 +83,11 @@ pub fn in_section() -> bool { IN_SEC.with(|x| x.get()) }
 // ---------------------------------------------------------------------------------------------- scheduler
 #[derive(Debug, Clone, Copy, PartialEq)]
 enum W { NotStarted, AtLock(&'static str), Running, Parked, Woken, Exited }
-struct SState { w: Vec<W>, granted: Option<usize>, trace: Vec<(usize, &'static str)>, deadlock: bool, steps: usize, crashed: Vec<usize>, overrun: bool }
+struct SState { w: Vec<W>, granted: Option<usize>, trace: Vec<(usize, &'static str)>, deadlock: bool, steps: usize, crashed: Vec<usize>, overrun: bool, silent: bool }
 pub struct Sched { st: Mutex<SState>, cv: Condvar, max_steps: usize }
 impl Sched {
     fn new(t: usize, max_steps: usize) -> Arc<Sched> {
-        Arc::new(Sched { st: Mutex::new(SState { w: vec![W::NotStarted; t], granted: None, trace: vec![], deadlock: false, steps: 0, crashed: vec![], overrun: false }), cv: Condvar::new(), max_steps })
+        Arc::new(Sched { st: Mutex::new(SState { w: vec![W::NotStarted; t], granted: None, trace: vec![], deadlock: false, steps: 0, crashed: vec![], overrun: false, silent: false }), cv: Condvar::new(), max_steps })
     }
     fn callback(self: &Arc<Self>) -> verif_hooks::Callback {
         let me = self.clone();
@@ -119,8 +125,9 @@ impl Sched {
             loop {
                 let quiescent = st.granted.is_none() && st.w.iter().all(|x| matches!(x, W::AtLock(_) | W::Parked | W::Exited));
                 if quiescent { break; }
-                let (g, to) = self.cv.wait_timeout(st, std::time::Duration::from_secs(10)).unwrap(); st = g;
-                if to.timed_out() { for x in st.w.iter_mut() { if matches!(*x, W::Running | W::Woken | W::NotStarted) { *x = W::Exited; } } }
+                let (g, to) = self.cv.wait_timeout(st, std::time::Duration::from_secs(4)).unwrap(); st = g;
+                // a worker that neither reaches an event nor exits for seconds is blocked where the hooks do not see
+                if to.timed_out() { let mut any = false; for x in st.w.iter_mut() { if matches!(*x, W::Running | W::Woken | W::NotStarted) { *x = W::Exited; any = true; } } if any { st.silent = true; } }
             }
             if st.w.iter().all(|x| *x == W::Exited) { return; }
             let cands: Vec<usize> = st.w.iter().enumerate().filter(|(_, x)| matches!(x, W::AtLock(_))).map(|(i, _)| i).collect();
@@ -212,11 +219,21 @@ pub fn run_scheduled(fam: &Fam, cfg: &PCfg) -> PRun {
             pick
         });
     }
-    let (deadlock, overrun, crashed) = { let st = sched.st.lock().unwrap(); (st.deadlock, st.overrun, st.crashed.clone()) };
+    let (deadlock, overrun, crashed) = { let st = sched.st.lock().unwrap(); (st.deadlock || st.silent, st.overrun, st.crashed.clone()) };
+    let mut deadlock = deadlock;
     let fin = if deadlock || overrun {
         // the workers are parked inside thread::scope: the run cannot be joined; abandon it
         None
-    } else { let _ = handle.join(); result.lock().unwrap().take().flatten() };
+    } else {
+        // every worker reported its exit: maximize() must return promptly; if it does not, a worker is blocked
+        // somewhere the hooks do not see (e.g. a wait without event): count it as a deadlock and abandon the run
+        let t0 = std::time::Instant::now();
+        loop {
+            if let Some(r) = result.lock().unwrap().take() { let _ = handle.join(); break r; }
+            if t0.elapsed().as_secs() >= 4 { deadlock = true; break None; }
+            std::thread::sleep(std::time::Duration::from_millis(1));
+        }
+    };
     verif_hooks::set_callback(None);
     PRun { fin, deadlock, overrun, crashed, tape: take_gtape(), choices: made, polls: polls.load(AO::SeqCst), hung_pops: hung.load(AO::SeqCst) == 1 }
 }
@@ -242,13 +259,13 @@ pub fn run_par(a: &Args) {
     let focus_cache = a.extra.iter().any(|x| x == "--focus-cache");
     let focus_dom = a.extra.iter().any(|x| x == "--focus-dominance");
     let mut rng = Rng::new(a.seed);
-    let ninst = if a.thorough { 3000 } else { 250 };
+    let ninst = if a.thorough { 12000 } else { 1000 };
     let mut bad = 0;
     for _ in 0..ninst {
         let fam = crate::eng_seq::pick_fam(&mut rng, long_arcs, focus_cache, focus_dom);
         let kinds: Vec<usize> = if long_arcs { vec![2] } else { vec![0, 1, 2] };
         let mut s = random_cfg(&fam, &mut rng, &kinds);
-        if focus_cache { s.cache = true; s.w = WE::F(*rng.pick(&[1usize, 1, 2])); }
+        if focus_cache { s.cache = true; s.w = WE::F(*rng.pick(&[1usize, 1, 2])); if rng.chance(3, 4) { s.nodup = false; } }
         if focus_dom { s.w = WE::F(*rng.pick(&[1usize, 2, 2])); }
         if rng.chance(1, 6) { if let Some(p) = random_solution(&fam, &mut rng) { s.primal = Some(p); } }
         if cutoff { s.stop_at = Some(rng.range(1, 14) as usize); }
@@ -269,5 +286,60 @@ pub fn run_par(a: &Args) {
         out.case_tagged(&format!("{} | {}", fam.tokens(), rcfg.tokens()), &prun_tok(&pr), &tags.join(" "));
         if bad > 40 { break; } // abandoned runs leak parked threads: bound them per process
     }
+    out.finish();
+}
+
+/// `parstress`: free-running real threads (no scheduler), 2..8 workers, slowed `best_exact_solution()`; only the
+/// final outcome is observed (phi: optimum, solution replay, bounds)
+pub fn run_parstress(a: &Args) {
+    let mut out = Out::new(&a.out, "parstress");
+    verif_hooks::set_callback(None);
+    STRESS.store(1, AO::SeqCst); CACHE_YIELD.store(0, AO::SeqCst);
+    let mut rng = Rng::new(a.seed);
+    let run = |fam: &Fam, cfg: &PCfg| -> String {
+        take_gtape();
+        let dom = new_dom(fam);
+        let cutoff = CountCutoff { count: AtomicUsize::new(0), stop_at: cfg.s.stop_at };
+        let w = cfg.s.w.build();
+        let inner: Box<dyn Fringe<State = i64> + Send + Sync + '_> = if cfg.s.nodup { Box::new(NoDupFringe::new(MaxUB::new(fam))) } else { Box::new(SimpleFringe::new(MaxUB::new(fam))) };
+        let mut fringe = PTapeFringe { inner, pops: 0, cap: 50_000 };
+        fn go<D: DecisionDiagram<State = i64> + Default, C: Cache<State = i64> + Default + Send + Sync>(fam: &Fam, cfg: &PCfg, w: &(dyn WidthHeuristic<i64> + Send + Sync), dom: &(dyn DominanceChecker<State = i64> + Send + Sync), cutoff: &CountCutoff, fringe: &mut PTapeFringe) -> Option<(bool, Option<isize>, isize, isize, usize, Option<Vec<Decision>>)> {
+            catch(|| {
+                let mut s = ParallelSolver::<i64, PTapeDD<D>, PTapeCache<C>>::custom(fam, fam, fam, w, dom, cutoff, fringe, cfg.threads);
+                let c = s.maximize();
+                (c.is_exact, c.best_value, s.best_lower_bound(), s.best_upper_bound(), s.explored(), s.best_solution())
+            })
+        }
+        let r = match (cfg.s.kind, cfg.s.cache) {
+            (0, false) => go::<DefaultMDDLEL<i64>, EmptyCache<i64>>(fam, cfg, w.as_ref(), &dom, &cutoff, &mut fringe),
+            (0, true) => go::<DefaultMDDLEL<i64>, SimpleCache<i64>>(fam, cfg, w.as_ref(), &dom, &cutoff, &mut fringe),
+            (1, false) => go::<DefaultMDDFC<i64>, EmptyCache<i64>>(fam, cfg, w.as_ref(), &dom, &cutoff, &mut fringe),
+            (1, true) => go::<DefaultMDDFC<i64>, SimpleCache<i64>>(fam, cfg, w.as_ref(), &dom, &cutoff, &mut fringe),
+            (_, false) => go::<Pooled<i64>, EmptyCache<i64>>(fam, cfg, w.as_ref(), &dom, &cutoff, &mut fringe),
+            (_, true) => go::<Pooled<i64>, SimpleCache<i64>>(fam, cfg, w.as_ref(), &dom, &cutoff, &mut fringe),
+        };
+        take_gtape();
+        match r { Some((e, v, lb, ub, ex, sol)) => format!("{} {} {} {} {} 0 | {}", e as u8, v.map(|x| x.to_string()).unwrap_or("none".into()), lb, ub, ex, sol.as_ref().map(|s| decs(s)).unwrap_or("none".into())), None => "panic".into() }
+    };
+    if let Some(r) = &a.replay {
+        let parts: Vec<&str> = r.split('|').collect();
+        let (fam, _) = Fam::parse(&parts[0].split_whitespace().collect::<Vec<_>>());
+        let cfg = PCfg::parse(&parts[1..]);
+        for _ in 0..200 { out.case_tagged(r, &run(&fam, &cfg), "replay"); }
+        out.finish(); return;
+    }
+    let ninst = if a.thorough { 20000 } else { 1500 };
+    for _ in 0..ninst {
+        // instances on which the incumbent improves several times: no rough bound, width 1..2, a few layers
+        let mut t = TableDP::random(&mut rng, false); t.rub_mode = 0; t.compute_hstar();
+        let fam = Fam::Table(t);
+        let mut s = random_cfg(&fam, &mut rng, &[0, 1, 2]);
+        s.w = WE::F(*rng.pick(&[1usize, 1, 2]));
+        let threads = *rng.pick(&[2usize, 2, 3, 4, 8]);
+        let cfg = PCfg { s, threads, built_with: threads, policy: 0, choices: None, cache_yield: false };
+        let imp = run(&fam, &cfg);
+        out.case_tagged(&format!("{} | {}", fam.tokens(), cfg.tokens()), &imp, &format!("threads{} stress", threads));
+    }
+    STRESS.store(0, AO::SeqCst);
     out.finish();
 }
